@@ -159,6 +159,7 @@ AXES = [
     ("pre_comment", [("on", ax_flag("pre_comment"))]),
     ("blank", [("on", ax_flag("blank"))]),
     ("crlf", [("on", ax_flag("crlf"))]),
+    ("eof", [("no-final-semicolon", ax_flag("no_final_semicolon", "newline")), ("no-final-semicolon-no-newline", ax_flag("no_final_semicolon", "bare"))]),
     ("charts", [("2", ax_charts(2)), ("3", ax_charts(3))]),
 ]
 
